@@ -167,6 +167,9 @@ type txgen struct {
 	highS   int
 }
 
+// genNoHighS: generate chains that are valid under every signer schedule (no high-S signatures)
+var genNoHighS bool
+
 // signHighS signs with the non-canonical (high) S value: s' = N - s, recovery id flipped
 func signHighS(tx *types.Transaction, key *btcec.PrivateKey) (*types.Transaction, error) {
 	h := types.FrontierSigner{}.Hash(tx)
@@ -256,7 +259,7 @@ func (g *txgen) make(from int, nonce uint64, number *big.Int, protectedOK bool) 
 	}
 	var stx *types.Transaction
 	var err error
-	if _, eip := signer.(types.EIP155Signer); !eip && !g.cfg.IsHomestead(number) && r.Intn(2) == 0 {
+	if _, eip := signer.(types.EIP155Signer); !eip && !genNoHighS && !g.cfg.IsHomestead(number) && r.Intn(2) == 0 {
 		stx, err = signHighS(tx, keys[from]) // valid before Homestead only
 		g.highS++
 	} else {
@@ -508,6 +511,24 @@ type node struct {
 	bc    *core.BlockChain
 	cache *core.CacheConfig
 	cfg   *params.ChainConfig
+	// mirror, if set, is a second node that receives the very objects this node is given (this node
+	// imports cold copies decoded from RLP); the two verdicts must agree, else diff is called
+	mirror *node
+	diff   func(blocks []*types.Block, cold, warm string)
+}
+
+// withMirror attaches a warm-object mirror to n; differences become violations
+func withMirror(c *vh.Ctx, ch *chainT, n *node, where string) {
+	n.mirror = newNode(c, ch, n.cache)
+	n.diff = func(blocks []*types.Block, cold, warm string) {
+		var enc []string
+		for _, b := range blocks {
+			e, _ := rlp.EncodeToBytes(b)
+			enc = append(enc, vh.Hex(e))
+		}
+		c.Violate("warm-objects-change-verdict/"+where, fmt.Sprintf("the same block(s) on the same parent: a node given cold copies decoded from RLP says %q, a node given the Go objects already used elsewhere (transaction pool, miner, other blocks, a refused import) says %q", cold, warm),
+			replayOf(ch, map[string]interface{}{"blocks_rlp": enc, "first_number": blocks[0].NumberU64(), "cold": cold, "warm": warm, "where": where}))
+	}
 }
 
 func newNode(c *vh.Ctx, ch *chainT, cache *core.CacheConfig) *node {
@@ -524,6 +545,12 @@ func (n *node) open(c *vh.Ctx) {
 	n.bc = bc
 }
 func (n *node) reopen(c *vh.Ctx) { n.bc.Stop(); n.open(c) }
+func (n *node) stop() {
+	n.bc.Stop()
+	if n.mirror != nil {
+		n.mirror.bc.Stop()
+	}
+}
 
 func (n *node) insert(blocks []*types.Block) (err error) {
 	if len(blocks) == 0 {
@@ -542,7 +569,13 @@ func (n *node) insert(blocks []*types.Block) (err error) {
 	}
 	pan, pv := vh.CatchPanic(func() { _, err = n.bc.InsertChain(cp) })
 	if pan {
-		return fmt.Errorf("panic: %v", pv)
+		err = fmt.Errorf("panic: %v", pv)
+	}
+	if n.mirror != nil {
+		werr := n.mirror.insertSame(blocks)
+		if cv, wv := classify(err), classify(werr); cv != wv && n.diff != nil {
+			n.diff(blocks, cv, wv)
+		}
 	}
 	return err
 }
@@ -601,6 +634,14 @@ func histories() []history {
 		{"per-block/archive", archive, true, func(c *vh.Ctx, n *node, ch *chainT) error {
 			for _, b := range ch.blocks {
 				if err := n.insert([]*types.Block{b}); err != nil {
+					return err
+				}
+			}
+			return nil
+		}},
+		{"per-block/same-objects-as-the-builder/archive", archive, true, func(c *vh.Ctx, n *node, ch *chainT) error {
+			for _, b := range ch.blocks {
+				if err := n.insertSame([]*types.Block{b}); err != nil {
 					return err
 				}
 			}
@@ -1052,6 +1093,14 @@ func corruptions(r *vh.RNG, ch *chainT, i int, parent *types.Block) []corrupt {
 		}
 		extraTx, _ := types.SignTx(types.NewTransaction(1<<40, addrs[0], big.NewInt(1), 21000, big.NewInt(1), nil), types.HomesteadSigner{}, keys[1])
 		add("body/add-tx"+sfx, withBody(b, append(append(types.Transactions{}, txs...), extraTx), uncles, fix), fix)
+		{
+			ptx, _ := types.SignTx(types.NewTransaction(0, addrs[0], big.NewInt(1), 21000, big.NewInt(1000000000), nil), types.NewEIP155Signer(ch.spec.cfg.ChainId), keys[4])
+			types.Sender(types.NewEIP155Signer(ch.spec.cfg.ChainId), ptx)
+			add("body/add-protected-tx"+sfx, withBody(b, append(append(types.Transactions{}, txs...), ptx), uncles, fix), fix)
+			htx, _ := signHighS(types.NewTransaction(0, addrs[0], big.NewInt(1), 21000, big.NewInt(1000000000), nil), keys[5])
+			types.Sender(types.FrontierSigner{}, htx)
+			add("body/add-high-S-tx"+sfx, withBody(b, append(append(types.Transactions{}, txs...), htx), uncles, fix), fix)
+		}
 		if len(uncles) > 0 {
 			add("body/drop-uncle"+sfx, withBody(b, txs, nil, fix), fix)
 			au := types.CopyHeader(uncles[0])
@@ -1114,7 +1163,9 @@ func partCorruption(c *vh.Ctx, m *vh.Model, ch *chainT, idx int, cache *core.Cac
 	n := newNode(c, ch, cache)     // is offered every single-field corruption
 	clean := newNode(c, ch, cache) // never sees a bad block
 	n2 := newNode(c, ch, cache)    // receives the variants with re-derived body roots (may be valid blocks)
-	defer func() { n.bc.Stop(); clean.bc.Stop(); n2.bc.Stop() }()
+	withMirror(c, ch, n, "corruptions")
+	withMirror(c, ch, n2, "rederived-variants")
+	defer func() { n.stop(); clean.bc.Stop(); n2.stop() }()
 	all := make([][]corrupt, len(ch.blocks))
 	for i := range ch.blocks {
 		parent := ch.genesis
@@ -1466,7 +1517,8 @@ func partBuilder(c *vh.Ctx, m *vh.Model, ch *chainT, idx int, k int) {
 	}
 	// second node (other cache mode), same prefix
 	b := newNode(c, ch, nil)
-	defer func() { b.bc.Stop() }()
+	withMirror(c, ch, b, "worker-built-block")
+	defer func() { b.stop() }()
 	if err := b.insert(ch.blocks[:k]); err != nil {
 		c.Violate("valid-chain-refused/second-node", fmt.Sprintf("a fresh pruning node refused the first %d blocks of a generated chain in one batch: %v", k, err), replayOf(ch, map[string]interface{}{"blocks": k, "error": err.Error()}))
 		return
@@ -1560,7 +1612,7 @@ func main() {
 	c := vh.Init("C01")
 	m := c.StartModel()
 	defer m.Close()
-	c.Res.Rule = "chains of 13 blocks from core.GenerateChain (faker engine) on two configurations (hard forks 1-9 at heights 2-12 with EIP155/158/Byzantium at 9; TestChainConfig with forks at 1-7), 0-6 transactions per block drawn from 13 kinds (transfers to funded / fresh / empty accounts, zero-value touches, calls into contracts that write and clear storage slots from a small pool and emit LOG1/LOG2, selfdestruct to varying beneficiaries, REVERT-or-LOG0, a contract calling another, creations with and without constructor effects, a failing creation, out-of-gas calls, precompiles, calls into contracts created earlier), homestead- and EIP155-signed, a miner that is also a sender, uncles (at most one per block, 2-6 generations back), empty blocks, a sibling per block and a competing fork. Each chain: (a) nine arrival histories compared observable by observable; commitments and verdict compared with the extracted model; (b) one block assembled by opt/miner's worker over a real TxPool and imported into a second node; (c) every single-field corruption of every block offered before the good block (invariance of head/TD/state/every database key) and re-derived variants afterwards. (d) per chain one pair of competing forks that put different code (same deployer and nonce, different init code and code length), constructor storage, storage values, balances and a one-sided selfdestruct at the SAME identities and read them in later blocks through a probe contract (EXTCODESIZE, EXTCODECOPY, BALANCE, CALL, SSTORE of what was read): eleven orders of arrival of both forks on one running node (A then B, B then A, interleaved; batches / per block; archive / pruning; restarts; after a failed block of the other fork), every block compared with a cold node that only saw its fork. The worker's pending sets in (b) contain transactions that pass the pool but fail inside ApplyTransaction (overdraft by value after nonce bump and gas purchase, overdraft in Create, cannot buy gas after the previous one, gas hog, nonce gaps) at price-dependent positions, at every fork height; the header root must be the root of executing only the included transactions. A case is distinct and non-trivial by (chain, history | block, corruption | builder parent and included count | fork history)."
+	c.Res.Rule = "chains of 13 blocks from core.GenerateChain (faker engine) on two configurations (hard forks 1-9 at heights 2-12 with EIP155/158/Byzantium at 9; TestChainConfig with forks at 1-7), 0-6 transactions per block drawn from 13 kinds (transfers to funded / fresh / empty accounts, zero-value touches, calls into contracts that write and clear storage slots from a small pool and emit LOG1/LOG2, selfdestruct to varying beneficiaries, REVERT-or-LOG0, a contract calling another, creations with and without constructor effects, a failing creation, out-of-gas calls, precompiles, calls into contracts created earlier), homestead- and EIP155-signed, a miner that is also a sender, uncles (at most one per block, 2-6 generations back), empty blocks, a sibling per block and a competing fork. Each chain: (a) nine arrival histories compared observable by observable; commitments and verdict compared with the extracted model; (b) one block assembled by opt/miner's worker over a real TxPool and imported into a second node; (c) every single-field corruption of every block offered before the good block (invariance of head/TD/state/every database key) and re-derived variants afterwards. (d) per chain one pair of competing forks that put different code (same deployer and nonce, different init code and code length), constructor storage, storage values, balances and a one-sided selfdestruct at the SAME identities and read them in later blocks through a probe contract (EXTCODESIZE, EXTCODECOPY, BALANCE, CALL, SSTORE of what was read): eleven orders of arrival of both forks on one running node (A then B, B then A, interleaved; batches / per block; archive / pruning; restarts; after a failed block of the other fork), every block compared with a cold node that only saw its fork. The worker's pending sets in (b) contain transactions that pass the pool but fail inside ApplyTransaction (overdraft by value after nonce bump and gas purchase, overdraft in Create, cannot buy gas after the previous one, gas hog, nonce gaps) at price-dependent positions, at every fork height; the header root must be the root of executing only the included transactions. All blocks are assembled on a live BlockChain (harness/cmd/c01/gen.go: makeHeader-shaped header, core.ApplyTransaction with the chain as context, engine.Finalize), so transactions can read block context: a ctx-probe kind stores BLOCKHASH of 16 fixed depths (1..12, 256, 257, own and next number) and of a chosen depth, COINBASE, TIMESTAMP, NUMBER, DIFFICULTY, GASLIMIT; fork blocks have their own timestamps/coinbases and their BLOCKHASH depths reach across the fork point; the staged configuration has Homestead at 3 and chains carry high-S transactions below it. (e) object identity: every cold import (copies decoded from RLP) is mirrored on a second node that receives the very Go objects (shared between corrupted variants, the good block, the worker and the pool) and the verdicts must agree; per height below a signer fork a block assembled under another signer schedule (EIP155 from 0: replay-protected transactions; Homestead one block later: high-S) is offered cold, as the assembled objects, after a pass through a TxPool, and again after a refused import. A case is distinct and non-trivial by (chain, history | block, corruption | builder parent and included count | fork history | object case, height, source of the objects)."
 	c.Assume("header verification and uncle verification are the faker engine's (all rules of C13 except the seal); seals are not checked")
 	c.Assume("database = aquadb.MemDatabase; restart = BlockChain.Stop + NewBlockChain on the same database")
 	c.Assume("Go map iteration orders and cache contents actually taken are sampled (one run per history); the theorems cover all of them in the model")
@@ -1620,6 +1672,9 @@ func main() {
 		partCorruption(c, m, ch, idx, cache, cname)
 		t4 := time.Now()
 		partForks(c, spec, idx)
+		t5 := time.Now()
+		partObjects(c, spec)
+		c.Note("chain %d objects %.1fs", idx, time.Since(t5).Seconds())
 		c.Note("%s corruption %.1fs forks %.1fs", tnote, t4.Sub(t3).Seconds(), time.Since(t4).Seconds())
 		if idx == 0 {
 			c.Sample(map[string]interface{}{"config": spec.name, "kinds_per_block": ch.kinds, "fork_at": ch.forkAt, "fork_len": len(ch.fork)})
